@@ -7,6 +7,7 @@ import (
 	"errors"
 	"fmt"
 	"net/http/httptest"
+	"net/url"
 	"sort"
 	"strings"
 	"sync"
@@ -533,6 +534,28 @@ func (in *Instance) getAlerts() []APIAlert {
 		out = append(out, a.conv())
 	}
 	return out
+}
+
+func (in *Instance) getAlertsFiltered(f GetFlags) ([]APIAlert, bool) {
+	q := fmt.Sprintf("/alerts?active=%v&silenced=%v&inhibited=%v", f.Active, f.Silenced, f.Inhibited)
+	if f.Receiver != "" {
+		q += "&receiver=" + url.QueryEscape(f.Receiver)
+	}
+	code, resp := in.do("GET", q, nil)
+	if code != 200 {
+		in.sim.errf("GET %s -> %d %s", q, code, resp)
+		return nil, false
+	}
+	var as []apiAlertJSON
+	if err := json.Unmarshal(resp, &as); err != nil {
+		in.sim.errf("GET %s decode: %v", q, err)
+		return nil, false
+	}
+	out := make([]APIAlert, 0, len(as))
+	for _, a := range as {
+		out = append(out, a.conv())
+	}
+	return out, true
 }
 
 func (in *Instance) getGroups() ([]APIGroup, []DispGroup) {
